@@ -390,7 +390,7 @@ Section Sized.
                 end) as [s1 o1] eqn:E1.
       assert (H1 : IA s1 /\ Forall obs_ok o1).
       { destruct (s_pending s) as [[[[[from bc] bytes] d] fid]|].
-        - destruct (handle_from_idle_IA _ _ _ _ _ _ _ _ HI E1) as [A B]. split; [exact A|apply sobs_obs; exact B].
+        - destruct (handle_from_idle_IA (upd_pending s None) _ _ _ _ _ _ _ HI E1) as [A B]. split; [exact A|apply sobs_obs; exact B].
         - inversion E1; subst. split; [exact HI|constructor]. }
       destruct H1 as [HI1 Ho1].
       destruct (s_control s1); [|inversion H; subst; split; assumption..].
